@@ -174,6 +174,13 @@ fn run_scenario(sc: &Value, t: &mut Tracer) {
 				}
 				true
 			}
+			"Pause" => {
+				if let Some(h) = s.h.as_mut() {
+					h.pause(Tween { start_time: StartTime::Immediate, duration: Duration::ZERO, easing: kira::Easing::Linear });
+					t.ev(json!({"a": "pause"}));
+				}
+				true
+			}
 			"Discard" => {
 				if s.sim.take().is_some() {
 					discarded = true;
